@@ -75,8 +75,8 @@ pub fn read_only_op(kind: Kind, a: u16, cap: usize) -> BoxedStrategy<Op> {
         let nf: u8 = if kind.is_lru() { 12 } else { 10 };
         v.push((
             10,
-            (0..nl, 0..nf, prop::collection::vec(any::<bool>(), 0..=cap.min(8) + 2), prop_oneof![Just(255u8), 0u8..6])
-                .prop_map(|(list, fam, pat, clone_at)| Op::Iter { list, fam, pat, clone_at, write: false })
+            (0..nl, 0..nf, prop::collection::vec(any::<bool>(), 0..=cap.min(8) + 2), prop_oneof![Just(255u8), 0u8..6], any::<u8>())
+                .prop_map(|(list, fam, pat, clone_at, fin)| Op::Iter { list, fam, pat, clone_at, write: false, fin })
                 .boxed(),
         ));
     }
